@@ -396,8 +396,12 @@ wrapint wrapint::ashr(wrapint x) const {
     // fill blanks with 1's
     uint64_t all_ones =
         (_width < 64 ? ((uint64_t)1 << (uint64_t)_width) - 1 : UINT64_MAX);
-    // 1110..0
-    uint64_t only_upper_bits_ones = all_ones << (uint64_t)(_width - x._n);
+    if (x._n == 0) {
+      return *this;
+    }
+    // 1110..0 (only the lower _width bits are kept)
+    uint64_t only_upper_bits_ones =
+        (all_ones << (uint64_t)(_width - x._n)) & all_ones;
     return wrapint(only_upper_bits_ones | (_n >> x._n), _width, _mod);
   }
 }
